@@ -16,6 +16,9 @@ use std::task::{Context, Poll, Wake, Waker};
 
 pub struct InjectedPanic;
 pub struct SelfDeadlock;
+/// thrown by a leaf when one run has produced an absurd number of events (endless loop inside a poll)
+pub struct LogOverflow;
+pub const LOG_LIMIT: usize = 150_000;
 
 thread_local! {
     pub static LAST_PANIC: std::cell::RefCell<String> = const { std::cell::RefCell::new(String::new()) };
@@ -27,6 +30,8 @@ pub fn install_panic_hook() {
             "<injected>".to_string()
         } else if info.payload().is::<SelfDeadlock>() {
             "<self-deadlock>".to_string()
+        } else if info.payload().is::<LogOverflow>() {
+            "<log overflow>".to_string()
         } else if let Some(s) = info.payload().downcast_ref::<&str>() {
             s.to_string()
         } else if let Some(s) = info.payload().downcast_ref::<String>() {
@@ -45,6 +50,7 @@ pub fn install_panic_hook() {
 pub enum Caught {
     Injected,
     Deadlock,
+    Overflow,
     Other(String),
 }
 
@@ -53,6 +59,8 @@ pub fn classify(p: Box<dyn Any + Send>) -> Caught {
         Caught::Injected
     } else if p.is::<SelfDeadlock>() {
         Caught::Deadlock
+    } else if p.is::<LogOverflow>() {
+        Caught::Overflow
     } else {
         Caught::Other(LAST_PANIC.with(|p| p.borrow().clone()))
     }
@@ -330,7 +338,7 @@ pub fn fire(node: NodeId, which: Which, ctx: FireCtx) {
                 w.emit(Ev::Caught { whence: "waker: self-deadlock" });
                 w.flag("c01.deadlock", || format!("invoking a waker of n{node} blocks on a lock the poller holds"));
             }
-            Some(Caught::Injected) => {}
+            Some(Caught::Injected) | Some(Caught::Overflow) => {}
             Some(Caught::Other(m)) => {
                 w.emit(Ev::Caught { whence: "waker: panic" });
                 w.flag("c01.wake_panic", || format!("invoking a waker of n{node} panicked: {m}"));
@@ -505,6 +513,9 @@ impl World {
 }
 
 pub fn leaf_poll_common(id: NodeId, cx: &mut Context<'_>) -> LeafAct {
+    if with(|w| w.log.len() > LOG_LIMIT) {
+        std::panic::panic_any(LogOverflow);
+    }
     let act = with(|w| w.leaf_poll(id, cx.waker()));
     if act.panic {
         std::panic::panic_any(InjectedPanic);
